@@ -50,9 +50,135 @@ func ruleTimeBase(p *Prog, r *Res, rule string) {
 			return t != nil && types.TypeString(t, nil) == "time.Duration"
 		}
 		type terms struct{ refs, offs map[types.Object]string }
+		// env binds the parameters of a local closure to the argument expressions of one of its call sites
+		type tbEnv struct {
+			bind   map[types.Object]ast.Expr
+			parent *tbEnv
+		}
+		lookup := func(env *tbEnv, o types.Object) (ast.Expr, *tbEnv, bool) {
+			if env == nil || o == nil {
+				return nil, nil, false
+			}
+			a, ok := env.bind[o]
+			return a, env.parent, ok
+		}
+		// local closures: a local defined once as a function literal, used only as the callee of calls
+		closures := map[types.Object]*ast.FuncLit{}
+		{
+			defs := map[types.Object]int{}
+			lits := map[types.Object]*ast.FuncLit{}
+			ast.Inspect(root.Body(), func(x ast.Node) bool {
+				if as, ok := x.(*ast.AssignStmt); ok && len(as.Lhs) == len(as.Rhs) {
+					for i, l := range as.Lhs {
+						if o := identObj(info, l); o != nil {
+							if _, isFn := o.Type().Underlying().(*types.Signature); isFn {
+								defs[o]++
+								if fl, ok := ast.Unparen(as.Rhs[i]).(*ast.FuncLit); ok {
+									lits[o] = fl
+								}
+							}
+						}
+					}
+				}
+				return true
+			})
+			calleeUse := map[*ast.Ident]bool{}
+			ast.Inspect(root.Body(), func(x ast.Node) bool {
+				if c, ok := x.(*ast.CallExpr); ok {
+					if id, ok := ast.Unparen(c.Fun).(*ast.Ident); ok {
+						calleeUse[id] = true
+					}
+				}
+				return true
+			})
+			escapes := map[types.Object]bool{}
+			ast.Inspect(root.Body(), func(x ast.Node) bool {
+				if id, ok := x.(*ast.Ident); ok && !calleeUse[id] {
+					if o := info.Uses[id]; o != nil && lits[o] != nil {
+						escapes[o] = true
+					}
+				}
+				return true
+			})
+			for o, fl := range lits {
+				if defs[o] == 1 && !escapes[o] && fl.Type.Params != nil && fl.Type.Params.NumFields() > 0 {
+					closures[o] = fl
+				}
+			}
+		}
+		inClosure := func(pos token.Pos) bool {
+			for _, fl := range closures {
+				if fl.Pos() <= pos && pos < fl.End() {
+					return true
+				}
+			}
+			return false
+		}
+		var streamOwner func(e ast.Expr, env *tbEnv, depth int) types.Object
+		streamOwner = func(e ast.Expr, env *tbEnv, depth int) types.Object {
+			if depth < 0 {
+				return nil
+			}
+			e = ast.Unparen(e)
+			if u, ok := e.(*ast.UnaryExpr); ok && u.Op == token.AND {
+				e = ast.Unparen(u.X)
+			}
+			if st, ok := e.(*ast.StarExpr); ok {
+				e = ast.Unparen(st.X)
+			}
+			switch y := e.(type) {
+			case *ast.Ident:
+				o := info.Uses[y]
+				if o == nil {
+					o = info.Defs[y]
+				}
+				if a, penv, ok := lookup(env, o); ok {
+					return streamOwner(a, penv, depth-1)
+				}
+				if o == nil {
+					return nil
+				}
+				switch typeName(o.Type()) {
+				case "Stream":
+					return o
+				case "stream":
+					return recvObj
+				}
+			case *ast.SelectorExpr:
+				// X.stream: the record embedded in a reader-bound Stream
+				if y.Sel.Name == "stream" {
+					return streamOwner(y.X, env, depth-1)
+				}
+			}
+			return nil
+		}
+		var readerOwner func(e ast.Expr, env *tbEnv, depth int) types.Object
+		readerOwner = func(e ast.Expr, env *tbEnv, depth int) types.Object {
+			if depth < 0 {
+				return nil
+			}
+			e = ast.Unparen(e)
+			if se, ok := e.(*ast.SelectorExpr); ok && se.Sel.Name == "r" {
+				if o := streamOwner(se.X, env, depth-1); o != nil && typeName(o.Type()) == "Stream" {
+					return o
+				}
+				return nil
+			}
+			if id, ok := e.(*ast.Ident); ok {
+				o := info.Uses[id]
+				if a, penv, ok := lookup(env, o); ok {
+					return readerOwner(a, penv, depth-1)
+				}
+				if o != nil && typeName(o.Type()) == "Reader" {
+					return o
+				}
+			}
+			return nil
+		}
+		isTime := func(t types.Type) bool { return t != nil && types.TypeString(t, nil) == "time.Time" }
 		memo := map[types.Object]*terms{}
-		var termsOfVar func(v types.Object, depth int) *terms
-		var termsOfExpr func(e ast.Node, depth int) *terms
+		var termsOfVar func(v types.Object, env *tbEnv, depth int) *terms
+		var termsOfExpr func(e ast.Node, env *tbEnv, depth int) *terms
 		merge := func(a, b *terms) {
 			for k, v := range b.refs {
 				a.refs[k] = v
@@ -61,52 +187,83 @@ func ruleTimeBase(p *Prog, r *Res, rule string) {
 				a.offs[k] = v
 			}
 		}
-		termsOfExpr = func(e ast.Node, depth int) *terms {
+		termsOfExpr = func(e ast.Node, env *tbEnv, depth int) *terms {
 			t := &terms{map[types.Object]string{}, map[types.Object]string{}}
+			if depth < 0 {
+				return t
+			}
 			ast.Inspect(e, func(x ast.Node) bool {
 				switch y := x.(type) {
 				case *ast.FuncLit:
 					return false
+				case *ast.CallExpr:
+					// a call of a local closure: its results with the parameters bound to this call's arguments
+					if id, ok := ast.Unparen(y.Fun).(*ast.Ident); ok {
+						if fl := closures[info.Uses[id]]; fl != nil {
+							bind := map[types.Object]ast.Expr{}
+							i := 0
+							for _, fld := range fl.Type.Params.List {
+								for _, nm := range fld.Names {
+									if i < len(y.Args) {
+										bind[info.Defs[nm]] = y.Args[i]
+									}
+									i++
+								}
+							}
+							cenv := &tbEnv{bind, env}
+							inspectShallow(fl.Body, func(z ast.Node) bool {
+								if rs, ok := z.(*ast.ReturnStmt); ok {
+									for _, res := range rs.Results {
+										merge(t, termsOfExpr(res, cenv, depth-1))
+									}
+								}
+								return true
+							})
+							return false
+						}
+					}
 				case *ast.SelectorExpr:
 					switch y.Sel.Name {
 					case "ReferenceTime":
-						base := ast.Unparen(y.X)
-						if se, ok := base.(*ast.SelectorExpr); ok && se.Sel.Name == "r" {
-							if o := identObj(info, se.X); o != nil && typeName(o.Type()) == "Stream" {
-								t.refs[o] = exprString(p.Fset, y)
-							}
-						} else if o := identObj(info, base); o != nil && typeName(o.Type()) == "Reader" {
+						if o := readerOwner(y.X, env, 4); o != nil {
 							t.refs[o] = exprString(p.Fset, y)
 						}
 						return false
 					case "FirstPacketTimeNS", "LastPacketTimeNS":
-						if o := identObj(info, y.X); o != nil {
-							switch typeName(o.Type()) {
-							case "Stream":
-								t.offs[o] = exprString(p.Fset, y)
-							case "stream":
-								if recvObj != nil {
-									t.offs[recvObj] = exprString(p.Fset, y) + " (a record of " + recvObj.Name() + ")"
-								}
+						if o := streamOwner(y.X, env, 4); o != nil {
+							txt := exprString(p.Fset, y)
+							if o == recvObj {
+								txt += " (a record of " + recvObj.Name() + ")"
 							}
+							t.offs[o] = txt
 						}
 						return false
 					}
 				case *ast.Ident:
-					if o, ok := info.Uses[y].(*types.Var); ok && isDuration(o.Type()) && !o.IsField() && depth > 0 {
-						merge(t, termsOfVar(o, depth-1))
+					o, ok := info.Uses[y].(*types.Var)
+					if !ok || o.IsField() || !(isDuration(o.Type()) || isTime(o.Type())) {
+						return true
+					}
+					if a, penv, ok := lookup(env, o); ok {
+						merge(t, termsOfExpr(a, penv, depth-1))
+					} else if depth > 0 {
+						merge(t, termsOfVar(o, env, depth-1))
 					}
 				}
 				return true
 			})
 			return t
 		}
-		termsOfVar = func(v types.Object, depth int) *terms {
-			if t, ok := memo[v]; ok {
-				return t
+		termsOfVar = func(v types.Object, env *tbEnv, depth int) *terms {
+			if env == nil {
+				if t, ok := memo[v]; ok {
+					return t
+				}
 			}
 			t := &terms{map[types.Object]string{}, map[types.Object]string{}}
-			memo[v] = t
+			if env == nil {
+				memo[v] = t
+			}
 			ast.Inspect(root.Body(), func(x ast.Node) bool {
 				if as, ok := x.(*ast.AssignStmt); ok {
 					for i, l := range as.Lhs {
@@ -114,7 +271,7 @@ func ruleTimeBase(p *Prog, r *Res, rule string) {
 							continue
 						}
 						if len(as.Lhs) == len(as.Rhs) {
-							merge(t, termsOfExpr(as.Rhs[i], depth))
+							merge(t, termsOfExpr(as.Rhs[i], env, depth))
 						}
 					}
 				}
@@ -122,13 +279,14 @@ func ruleTimeBase(p *Prog, r *Res, rule string) {
 			})
 			return t
 		}
-		// every duration local of the function (closures included)
+		// every duration local of the function (closures included); the locals of a parameterised local closure are
+		// evaluated through its call sites, with the parameters bound
 		var vars []types.Object
 		seen := map[types.Object]bool{}
 		ast.Inspect(root.Body(), func(x ast.Node) bool {
 			if as, ok := x.(*ast.AssignStmt); ok {
 				for _, l := range as.Lhs {
-					if o, ok := identObj(info, l).(*types.Var); ok && o != nil && isDuration(o.Type()) && !seen[o] {
+					if o, ok := identObj(info, l).(*types.Var); ok && o != nil && isDuration(o.Type()) && !seen[o] && !inClosure(o.Pos()) {
 						seen[o] = true
 						vars = append(vars, o)
 					}
@@ -137,7 +295,7 @@ func ruleTimeBase(p *Prog, r *Res, rule string) {
 			return true
 		})
 		for _, v := range vars {
-			t := termsOfVar(v, 4)
+			t := termsOfVar(v, nil, 6)
 			if len(t.refs) == 0 || len(t.offs) == 0 {
 				continue
 			}
